@@ -13,10 +13,10 @@ ACC = E + "apply_to_bitmap_accumulator"
 
 
 def run(c):
-    c.r1("apply-block-updates-accumulator", E + "apply_block", ACC, via=0)
-    c.r1("accumulator-after-inputs", E + "apply_block", E + "apply_input", sink=ACC, via=0,
+    c.r1("apply-block-updates-accumulator", E + "apply_block", ACC, via=2)
+    c.r1("accumulator-after-inputs", E + "apply_block", E + "apply_input", sink=ACC, via=2,
          extra_cuts=_empty_loop(c, E + "apply_block", r"validate_inputs"), desc="apply_block: the accumulator update follows the application of the spent inputs") if False else None
-    c.r1("accumulator-after-outputs-and-inputs", E + "apply_block", "grin_chain::txhashset::utxo_view::UTXOView::validate_inputs", sink=ACC, via=0)
+    c.r1("accumulator-after-outputs-and-inputs", E + "apply_block", "grin_chain::txhashset::utxo_view::UTXOView::validate_inputs", sink=ACC, via=2)
     c.r2_arg("accumulator-affected-positions", E + "apply_block", ACC, 1, must=["call:Vec::new"],
              desc="apply_block passes the affected_pos vector (filled with created and spent positions) to the accumulator update")
     for what, where in (("created", r"Extension::apply_output"), ("spent", r"\.pos$|\.1\.pos|pos\b")):
@@ -26,11 +26,11 @@ def run(c):
     c.loop("affected-spent", E + "apply_block", "re:alloc::vec::Vec::push$", over=r"validate_inputs", called_only=True,
            desc="apply_block: every spent position is pushed to affected_pos")
     R = E + "rewind"
-    c.r1("rewind-updates-accumulator", R, ACC, via=0, desc="Extension::rewind: ok => apply_to_bitmap_accumulator on both arms")
-    c.r1("rewind-block-affected", E + "rewind_single_block", E + "rewind_mmrs_to_pos", via=0)
+    c.r1("rewind-updates-accumulator", R, ACC, via=2, desc="Extension::rewind: ok => apply_to_bitmap_accumulator on both arms")
+    c.r1("rewind-block-affected", E + "rewind_single_block", E + "rewind_mmrs_to_pos", via=2)
     c.r2_arg("rewind-collects-affected", R, "re:alloc::vec::Vec::append$", 1, must=["call:Extension::rewind_single_block"],
              desc="Extension::rewind appends the positions returned by rewind_single_block to affected_pos")
-    c.r1("rewind-each-block", R, E + "rewind_single_block", sink="re:alloc::vec::Vec::append$", via=0)
+    c.r1("rewind-each-block", R, E + "rewind_single_block", sink="re:alloc::vec::Vec::append$", via=2)
     c.r2_arg("rewind-passes-affected", R, ACC, 1, must=["call:Vec::new"], where=r"Vec::new", floor=1)
     c.r2_arg("accumulator-size", ACC, "grin_chain::txhashset::bitmap_accumulator::BitmapAccumulator::apply", 3, must=["call:pmmr::n_leaves", "arg0.output_pmmr.size"])
     c.r2_arg("accumulator-leaves", ACC, "grin_chain::txhashset::bitmap_accumulator::BitmapAccumulator::apply", 2, must=["re:^call:.*leaf_idx_iter$", "arg0.output_pmmr", "call:BitmapAccumulator::chunk_start_idx"])
@@ -42,8 +42,8 @@ def run(c):
     err_arm = c.arm_blocks(W, r"^discr\(FnOnce::call_once\(arg3", 1)
     rb_arm = [e[1] for e in c.true_edges(W, r"\.extension\.rollback$")]
     _no_assign(c, "rollback-keeps-accumulator", W, err_arm + rb_arm, "bitmap_accumulator")
-    c.r1("open-rebuilds-accumulator", X + "TxHashSet::open", X + "TxHashSet::bitmap_accumulator", via=0)
-    c.r1("rebuild-from-leaf-set", X + "TxHashSet::bitmap_accumulator", "grin_chain::txhashset::bitmap_accumulator::BitmapAccumulator::init", via=0)
+    c.r1("open-rebuilds-accumulator", X + "TxHashSet::open", X + "TxHashSet::bitmap_accumulator", via=2)
+    c.r1("rebuild-from-leaf-set", X + "TxHashSet::bitmap_accumulator", "grin_chain::txhashset::bitmap_accumulator::BitmapAccumulator::init", via=2)
     c.r2_arg("rebuild-leaves", X + "TxHashSet::bitmap_accumulator", "grin_chain::txhashset::bitmap_accumulator::BitmapAccumulator::init", 1, must=["re:^call:.*leaf_idx_iter$", "const:0"])
     c.r2_arg("rebuild-size", X + "TxHashSet::bitmap_accumulator", "grin_chain::txhashset::bitmap_accumulator::BitmapAccumulator::init", 2, must=["call:pmmr::n_leaves", "arg0.size"])
     # --- root check
@@ -56,12 +56,12 @@ def run(c):
     c.r2_ret("merged-root", T + "OutputRoots::merged_root", must=["call:PMMRIndexHashable::hash_with_index", "arg0.pmmr_root", "arg0.bitmap_root", "arg1.output_mmr_size"])
     c.r2_ret("output-root-delegates", T + "TxHashSetRoots::output_root", must=["call:OutputRoots::root", "arg0.output_roots", "arg1"])
     c.r2_ret("ext-roots-bitmap", E + "roots", must=["call:BitmapAccumulator::root", "arg0.bitmap_accumulator"]) if False else None
-    c.r1("ext-roots-bitmap", E + "roots", "grin_chain::txhashset::bitmap_accumulator::BitmapAccumulator::root", via=0)
-    c.r1("validate-roots", E + "validate_roots", V, via=0, extra_cuts=c.true_edges(E + "validate_roots", r"^Eq\(arg1\.height, 0\)$"),
+    c.r1("ext-roots-bitmap", E + "roots", "grin_chain::txhashset::bitmap_accumulator::BitmapAccumulator::root", via=2)
+    c.r1("validate-roots", E + "validate_roots", V, via=2, extra_cuts=c.true_edges(E + "validate_roots", r"^Eq\(arg1\.height, 0\)$"),
          desc="Extension::validate_roots: ok => roots().validate(header), only bypass genesis")
     A = P + "apply_block_to_txhashset"
-    c.r1_all("roots-and-sizes-after-apply", A, [E + "apply_block", E + "validate_roots", E + "validate_sizes"], via=0)
-    c.r1("roots-after-apply-order", A, E + "apply_block", sink=E + "validate_roots", via=0)
+    c.r1_all("roots-and-sizes-after-apply", A, [E + "apply_block", E + "validate_roots", E + "validate_sizes"], via=2)
+    c.r1("roots-after-apply-order", A, E + "apply_block", sink=E + "validate_roots", via=2)
     c.r3("set-accumulator-callers", E + "set_bitmap_accumulator", {"grin_chain::txhashset::desegmenter::Desegmenter::finalize_bitmap"}, floor_sites=1)
     c.r3_field("ext-accumulator-writers", X + "Extension", "bitmap_accumulator",
                {E + "set_bitmap_accumulator": {"assign"}, ACC: {"&mut", "BitmapAccumulator::apply"}}, floor=2)
